@@ -18,4 +18,10 @@ pub proof fn axiom_hasher_agrees_on_clone<T: Clone, H: Fn(&T) -> u64>(h: H, a: T
     ensures forall|b: T| #[trigger] call_ensures(T::clone, (&a,), b) ==> h.ensures((&b,), hash)
 { }
 
+/// `Iterator::size_hint` of a caller-supplied iterator (extraction rule R17 routes the call through this identity
+/// wrapper because vstd's Iterator specification has no `size_hint`): the hint is advisory, so NOTHING is assumed
+/// about the result -- every value, including (usize::MAX, None) and a wrong one, is possible.
+#[verifier::external_body]
+pub fn iter_size_hint<I: Iterator>(it: &I) -> (r: (usize, Option<usize>)) { it.size_hint() }
+
 } // verus!
